@@ -30,6 +30,15 @@ CheckNoPanic(e) ==
   /\ Judge("C04", "NoPanic", e.ret.t # "panic", e.ret, "no panic")
   /\ Judge("C04", "RenderOK", e.render.string = "ok" /\ e.render.json = "ok", e.render, "ok")
 
+\* C16: the time-profile validation accepts a segment exactly when its end is not before its start (judged on calls
+\* that have no other reason to be refused)
+CheckSegmentRule(e) ==
+  IF e.op = "SetTimeProfile" /\ e.a.serial # <<0, 0>> /\ e.a.profile.from.t # "zero" /\ e.a.profile.to.t # "zero"
+     /\ \A k \in 1..3 : HasKey(e.a.profile.segments, k)
+    THEN LET bad == \E k \in 1..3 : LET sg == Lookup(e.a.profile.segments, k, ZeroSeg) IN HHmmLT(sg.end, sg.start) IN
+         Judge("C16", "SegmentRule", (Len(e.sent) = 0 /\ e.ret.t = "err") <=> bad, <<Len(e.sent), e.ret.t>>, IF bad THEN "refused" ELSE "accepted")
+    ELSE TRUE
+
 \* the complete card-number space against Wiegand-26, as maximal intervals of accepted numbers:
 \* facility code 0..255 followed by 00000..65535, minus the reserved number 0
 W26Expected == [f \in 1..256 |-> <<U32(IF f = 1 THEN 1 ELSE (f - 1) * 100000), U32((f - 1) * 100000 + 65535)>>]
@@ -75,7 +84,7 @@ CheckEvent(e) ==
 Check(e) == IF e.op = "W26Intervals" THEN CheckW26(e)
             ELSE IF e.op = "Event" THEN CheckEvent(e)
             ELSE IF Has(e.a, "extreme") THEN CheckNoPanic(e)
-            ELSE CheckSent(e) /\ CheckReject(e) /\ CheckNoPanic(e) /\ CheckResult(e) /\ CheckRoute(e) /\ CheckDiscovery(e)
+            ELSE CheckSent(e) /\ CheckReject(e) /\ CheckSegmentRule(e) /\ CheckNoPanic(e) /\ CheckResult(e) /\ CheckRoute(e) /\ CheckDiscovery(e)
 
 TraceNext == l <= Len(Trace) /\ Check(Trace[l]) /\ l' = l + 1
 ========================================================================
